@@ -779,9 +779,10 @@ class Compiler:
             self._compile_expression(node.discriminant)
 
             jump_to_body: List[Tuple[int, int]] = []
-            default_jump = None
+            default_index = None
 
-            # Compile case tests
+            # Compile case tests: every case is tested, in source order, before
+            # the default clause is chosen, wherever `default` is written
             for i, case in enumerate(node.cases):
                 if case.test:
                     self._emit(OpCode.DUP)
@@ -790,9 +791,12 @@ class Compiler:
                     pos = self._emit_jump(OpCode.JUMP_IF_TRUE)
                     jump_to_body.append((pos, i))
                 else:
-                    default_jump = (self._emit_jump(OpCode.JUMP), i)
+                    default_index = i
 
-            # Jump to end if no match
+            # No case matched: enter at the default clause, or skip the body
+            default_jump = None
+            if default_index is not None:
+                default_jump = (self._emit_jump(OpCode.JUMP), default_index)
             jump_end = self._emit_jump(OpCode.JUMP)
 
             # Case bodies
